@@ -58,8 +58,8 @@ def getitem(x, index):
     if not isinstance(index, tuple):
         index = (index,)
 
-    # Check if the last index is an ellipsis.
-    last_ellipsis = len(index) > 0 and index[-1] is Ellipsis
+    # Check if the index contains an ellipsis: NumPy then returns a 0-d array, not a scalar.
+    last_ellipsis = any(ind is Ellipsis for ind in index)
 
     # Normalize the index into canonical form.
     index = normalize_index(index, x.shape)
